@@ -1,8 +1,26 @@
 #!/bin/sh
-# Builds the framework offline from files on disk. Checks rebuild what they need
-# from /repo's working tree themselves; this only warms the caches.
-set -e
+# Builds the framework offline from files on disk. Every check rebuilds what it
+# needs from /repo's working tree itself; this only warms the build caches so
+# the first quick run is not dominated by compilation.
 cd "$(dirname "$0")"
 export CARGO_NET_OFFLINE=true
 mkdir -p work target evidence replays
+python3 - <<'PY'
+import sys
+sys.path.insert(0, "lib"); sys.path.insert(0, ".")
+import importlib
+for name in ("abisym", "exprsmt", "rs2smt", "rtkani"):
+    try:
+        m = importlib.import_module("engines." + name)
+    except Exception as e:  # engine not present
+        print("setup: engine %s not importable: %s" % (name, e)); continue
+    fn = getattr(m, "setup", None) or getattr(m, "build", None)
+    if fn is None:
+        continue
+    try:
+        r = fn("/verif/work/setup_%s.log" % name) if fn.__code__.co_argcount >= 1 else fn()
+        print("setup: %s -> %s" % (name, r[0] if isinstance(r, tuple) else r))
+    except Exception as e:
+        print("setup: %s build raised %s (checks rebuild on demand)" % (name, e))
+PY
 exit 0
